@@ -1,5 +1,17 @@
 import PqlModel.Props.C08
+import PqlModel.Props.C08Full
 #print axioms Pql.C08.C08_split_partition
 #print axioms Pql.C08.C08_splitSemi_partition
 #print axioms Pql.C08.C08_endSplit_iff
 #print axioms Pql.C08.C08_accounts_no_error_token
+#print axioms Pql.C08.C08_accounted_expr
+#print axioms Pql.C08.C08_accounted_exprList
+#print axioms Pql.C08.C08_accounted_sortTerm
+#print axioms Pql.C08.C08_accounted_column
+#print axioms Pql.C08.C08_accounted_operator
+#print axioms Pql.C08.C08_accounted_tabular
+#print axioms Pql.C08.C08_accounted_let
+#print axioms Pql.C08.C08_accounted_partial
+#print axioms Pql.C08.C08_accounted_parse
+#print axioms Pql.C08.C08_accounted_parse_zip
+#print axioms Pql.C08.C08_accounted_unrestricted_false
